@@ -562,6 +562,9 @@ fn run(ctx: &mut Ctx) {
     if ctx.shard == 3 % ctx.nshards {
         unreadable_link_slice(ctx);
     }
+    if ctx.shard == 4 % ctx.nshards {
+        low_descriptor_slice(ctx);
+    }
     long_slice(ctx);
     // mixed slice first (patterns of <= 2 atoms, subjects <= 2|3)
     {
@@ -827,6 +830,28 @@ fn unreadable_link_slice(ctx: &mut Ctx) {
     let _ = crate::sandbox::force_remove(&base);
 }
 
+/// 150 directories with 64 file descriptors (see props/lowfd.rs): -lname/-name/-path answer for the 150th link as for the first.
+fn low_descriptor_slice(ctx: &mut Ctx) {
+    use crate::props::lowfd;
+    let _ = lowfd::build(ctx);
+    let cases: Vec<(Vec<&str>, usize)> = vec![(vec!["lf", "-lname", "f"], 150), (vec!["lf", "-ilname", "F"], 150), (vec!["lf", "-name", "[fl]"], 300), (vec!["lf", "-path", "*/d1??/l"], 50), (vec!["-L", "lf", "-lname", "*"], 0), (vec!["lf", "-iname", "D0[0-4]?"], 50)];
+    for (args, want) in cases {
+        let o = lowfd::find(ctx, &args, 64, vec![]);
+        ctx.rep.evaluations += 1;
+        ctx.rep.nontrivial += 1;
+        ctx.rep.count("low_descriptor_limit_cases", 1);
+        let got = lowfd::lines(&o.out).len();
+        if o.died() || o.code != Some(0) || got != want {
+            ctx.rep.violation(
+                "C12 over 150 directories with 64 file descriptors: the later entries are not handled like the first",
+                format!("find {:?} under RLIMIT_NOFILE=64: {got} lines, expected {want}; status {:?}; stderr {:?}", args, o.code, String::from_utf8_lossy(&o.err).lines().take(2).collect::<Vec<_>>()),
+                json!({"prop":"C12","low_descriptor":true}),
+            );
+        }
+    }
+    lowfd::remove(ctx);
+}
+
 fn xok_take() -> u64 {
     XOK.with(|x| x.replace(0))
 }
@@ -837,6 +862,10 @@ fn replay(case: &Value, ctx: &mut Ctx) -> Option<String> {
     let mode = Mode::from(case["mode"].as_str()?).unwrap_or(Mode::Name);
     if case["mode"] == "roots" {
         roots_slice(ctx);
+        return ctx.rep.violations.keys().next().cloned();
+    }
+    if case["low_descriptor"] == true {
+        low_descriptor_slice(ctx);
         return ctx.rep.violations.keys().next().cloned();
     }
     if case["mode"] == "unreadable_link" {
